@@ -545,10 +545,30 @@ def m_dict(I, args, kw):
     return d
 
 
+class ArrSet:
+    """set(array) minus a concrete set: only (in)equality with the empty set is supported."""
+
+    def __init__(self, arr, excluded=frozenset()):
+        self.arr = arr
+        self.excluded = frozenset(excluded)
+
+    def nonempty(self):
+        a = self.arr
+        q = [z3.Int(fresh_name("q")) for _ in a.shape]
+        rng = z3.And(*[z3.And(x >= 0, x < to_z3(s_, "int")) for x, s_ in zip(q, a.shape)])
+        e = a.elem(*q)
+        if a.dtype == "bool":
+            e = z3.If(e, 1, 0)
+        notin = z3.And(*[e != (z3.RealVal(int(c)) if a.dtype == "real" else z3.IntVal(int(c))) for c in self.excluded]) if self.excluded else z3.BoolVal(True)
+        return z3.Exists(q, z3.And(rng, notin))
+
+
 @model(builtins.set, builtins.frozenset)
 def m_set(I, args, kw):
     if not args:
         return frozenset()
+    if isinstance(args[0], Arr) and args[0].ndim >= 1 and not isinstance(args[0].shape[0], int):
+        return ArrSet(args[0])
     items = I.iter_concrete(args[0])
     if all(I.is_concrete(x) for x in items):
         return frozenset(items)
